@@ -81,7 +81,6 @@ inductive Pc where
   | rUn1                           -- UnlockHereShared: `_state.fetch_sub(kReader)` next
   | rUn2                           -- a writer waits: `_readers_wait.fetch_sub(1)` next
   | rRun                           -- it was the last payer: `Run(_writers_first)` next
-  | trStart                        -- TryLockShared: initial load next
   | trLoop (w r : Nat)             -- TryLockShared loop with `s = (w, r)`
   | tryFailed                      -- a Try* form is about to report failure
   -- writers
@@ -116,7 +115,6 @@ def Pc.isAR : Pc → Bool
   | .rUn1 => true
   | .rUn2 => false
   | .rRun => false
-  | .trStart => false
   | .trLoop _ _ => false
   | .tryFailed => false
   | .twLoaded => false
@@ -152,7 +150,6 @@ def Pc.isIFL : Pc → Bool
   | .rUn1 => false
   | .rUn2 => false
   | .rRun => false
-  | .trStart => false
   | .trLoop _ _ => false
   | .tryFailed => false
   | .twLoaded => false
@@ -188,7 +185,6 @@ def Pc.isExcl : Pc → Bool
   | .rUn1 => false
   | .rUn2 => false
   | .rRun => false
-  | .trStart => false
   | .trLoop _ _ => false
   | .tryFailed => false
   | .twLoaded => false
@@ -224,7 +220,6 @@ def Pc.isCntW : Pc → Bool
   | .rUn1 => false
   | .rUn2 => false
   | .rRun => false
-  | .trStart => false
   | .trLoop _ _ => false
   | .tryFailed => false
   | .twLoaded => false
@@ -260,7 +255,6 @@ def Pc.isHeld : Pc → Bool
   | .rUn1 => false
   | .rUn2 => false
   | .rRun => false
-  | .trStart => false
   | .trLoop _ _ => false
   | .tryFailed => false
   | .twLoaded => false
@@ -296,7 +290,6 @@ def Pc.isParked : Pc → Bool
   | .rUn1 => false
   | .rUn2 => false
   | .rRun => false
-  | .trStart => false
   | .trLoop _ _ => false
   | .tryFailed => false
   | .twLoaded => false
@@ -332,7 +325,6 @@ def Pc.isInRound : Pc → Bool
   | .rUn1 => true
   | .rUn2 => true
   | .rRun => true
-  | .trStart => false
   | .trLoop _ _ => false
   | .tryFailed => false
   | .twLoaded => false
@@ -368,7 +360,6 @@ def Pc.isStoredUnl : Pc → Bool
   | .rUn1 => false
   | .rUn2 => false
   | .rRun => false
-  | .trStart => false
   | .trLoop _ _ => false
   | .tryFailed => false
   | .twLoaded => false
@@ -404,7 +395,6 @@ def Pc.isPassUnl : Pc → Bool
   | .rUn1 => false
   | .rUn2 => false
   | .rRun => false
-  | .trStart => false
   | .trLoop _ _ => false
   | .tryFailed => false
   | .twLoaded => false
@@ -440,7 +430,6 @@ def Pc.isULock : Pc → Bool
   | .rUn1 => false
   | .rUn2 => false
   | .rRun => false
-  | .trStart => false
   | .trLoop _ _ => false
   | .tryFailed => false
   | .twLoaded => false
@@ -476,7 +465,6 @@ def Pc.isURunW : Pc → Bool
   | .rUn1 => false
   | .rUn2 => false
   | .rRun => false
-  | .trStart => false
   | .trLoop _ _ => false
   | .tryFailed => false
   | .twLoaded => false
@@ -512,7 +500,6 @@ def Pc.isNeedW : Pc → Bool
   | .rUn1 => false
   | .rUn2 => false
   | .rRun => false
-  | .trStart => false
   | .trLoop _ _ => false
   | .tryFailed => false
   | .twLoaded => false
